@@ -4,7 +4,7 @@ import ast
 from ..absint import Explorer, UNKNOWN
 from ..astutil import norm, const, NO, compare, tail, names
 from ..index import AnalysisError, walk_own
-from .common import (site, key, calls_to, method_calls, nodes_with, guard_check, stores_to_name, cfg_attr)
+from .common import (site, key, calls_to, method_calls, nodes_with, guard_check, stores_to_name, cfg_attr, through_locals)
 
 PF = "gunicorn.pidfile.Pidfile"
 ARB = "gunicorn.arbiter.Arbiter"
@@ -27,10 +27,13 @@ def run(ctx):
     r6(ctx)
     # the USR2 child carries the master's Pidfile object (same recorded pid): if it ever falls back into the inherited main loop
     # its halt() unlinks the *running master's* pid file
-    ctx.rule("C17.R7", "K3", "(= C14.R1) the forked re-exec child never returns or raises into the old master's main loop (whose exit path unlinks the pid file the child inherited)")
+    ctx.rule("C17.R7", "K3", "(= C14.R1/R5) the forked re-exec child never returns or raises into the old master's main loop (whose exit path unlinks the pid file the child inherited); an unpromoted new master uses '<name>.2' at boot and on reload")
     from . import c14
     from .common import MultiAlias
     c14.r1(MultiAlias(ctx, {"C14.R1": "C17.R7"}))
+    # ... and while it is not promoted, a new master names its pid file '<name>.2' wherever it makes one (boot and HUP): the
+    # configured name still names the old master
+    c14.r5(MultiAlias(ctx, {"C14.R5": "C17.R7"}))
 
 
 def durable_writes(repo, f):
@@ -273,7 +276,7 @@ def r4(ctx):
     g = f.cfg
     cr = [nn for c in method_calls(f, "create") if tail(c.func.value) == "pidfile" for nn in nodes_with(f, c)]
     ctor = [c for c in calls_to(repo, f, "gunicorn.pidfile.Pidfile")]
-    ctx.check("C17.R4", bool(cr) and bool(ctor) and all(cfg_attr(c.args[0]) == "pidfile" for c in ctor) and all("self.pid" in n.text for n in cr), key(f, "reload-recreates"), site(f),
+    ctx.check("C17.R4", bool(cr) and bool(ctor) and all(any(cfg_attr(x) == "pidfile" for y in ([c.args[0]] + [s_.ast for s_ in (stores_to_name(f, c.args[0].id) if isinstance(c.args[0], ast.Name) else [])]) for x in ast.walk(y)) for c in ctor) and all("self.pid" in n.text for n in cr), key(f, "reload-recreates"), site(f),
               "reload does not re-create the pid file under cfg.pidfile with the master's pid", "Pidfile(cfg.pidfile).create(self.pid)")
     # ... and an unlink() of the previous Pidfile object that can run AFTER the create() is only harmless when the two
     # paths differ: on the same path create() finds its own pid and keeps the file, the old object's unlink() (owner
